@@ -1,6 +1,194 @@
-//! C04 — stub (not built yet).
+//! C04 — equality, order and hash are coherent; order is the DNSSEC
+//! canonical order (RFC 4034 §6.1–6.3, RFC 6840 §5.1).
+//!
+//! Three sub-checks:
+//! * `names`  — names in every representation (flat Vec/Bytes/slice,
+//!   `ParsedName` with compression pointers, `Chain`, `UncertainName`,
+//!   `RelativeName`) against an independent §6.1 reference on label vectors;
+//! * `atoms`  — `Label`/`OwnedLabel` and `CharStr`;
+//! * `rdata`  — record data of every type (the `AllRecordData` /
+//!   `ZoneRecordData` enums, the typed structs, `UnknownRecordData`),
+//!   `Record`, `RecordHeader`, `ParsedRecord`, `Question`: coherence laws on
+//!   related triples plus the reference order computed from the
+//!   *uncompressed generated RDATA* by the independent field table.
 use crate::engine::*;
+use std::cmp::Ordering;
+use std::collections::hash_map::DefaultHasher;
+use std::collections::BTreeMap;
+use std::hash::{Hash, Hasher};
+
+mod atoms;
+mod names;
+mod rdata;
+
+//------------ shared helpers --------------------------------------------------
+
+/// Diagnostic mode (never set by `./check`): with `VERIF_C04_COLLECT=1` law
+/// failures are recorded as classes `FAIL:<sig>` instead of ending the case,
+/// so one run lists every failing signature.
+pub(crate) fn collect_mode() -> bool {
+    static M: std::sync::OnceLock<bool> = std::sync::OnceLock::new();
+    *M.get_or_init(|| std::env::var("VERIF_C04_COLLECT").map(|v| v == "1").unwrap_or(false))
+}
+
+/// Reports a law failure.
+pub(crate) fn fail(ctx: &mut Ctx, sig: String, detail: String) -> CaseResult {
+    if collect_mode() {
+        static SEEN: std::sync::Mutex<Option<std::collections::HashMap<String, u32>>> = std::sync::Mutex::new(None);
+        let mut g = SEEN.lock().unwrap();
+        let n = g.get_or_insert_with(Default::default).entry(sig.clone()).or_insert(0);
+        *n += 1;
+        if *n <= 3 {
+            eprintln!("COLLECT {sig}: {detail}");
+        }
+        drop(g);
+        ctx.class(format!("FAIL:{sig}"));
+        return Ok(());
+    }
+    ctx.report(Violation::new(sig, detail))
+}
+
+macro_rules! law {
+    ($ctx:expr, $cond:expr, $sig:expr, $($arg:tt)*) => {
+        if !($cond) {
+            $crate::props::c04::fail($ctx, $sig.to_string(), format!($($arg)*))?;
+        }
+    };
+}
+pub(crate) use law;
+
+/// Both hashers: the engine's FNV and std's SipHash with its fixed keys.
+pub(crate) fn h2<T: Hash + ?Sized>(x: &T) -> (u64, u64) {
+    let mut f = Fnv::default();
+    x.hash(&mut f);
+    let mut s = DefaultHasher::new();
+    x.hash(&mut s);
+    (f.finish(), s.finish())
+}
+
+/// RFC 4034 §6.1 on one label: octet strings, upper case treated as lower.
+pub(crate) fn ref_label_cmp(a: &[u8], b: &[u8]) -> Ordering {
+    let la: Vec<u8> = a.iter().map(|c| if c.is_ascii_uppercase() { c + 32 } else { *c }).collect();
+    let lb: Vec<u8> = b.iter().map(|c| if c.is_ascii_uppercase() { c + 32 } else { *c }).collect();
+    la.cmp(&lb)
+}
+
+/// RFC 4034 §6.1 on label vectors (root implicit): most significant
+/// (rightmost) label first; a name that runs out of labels sorts first.
+pub(crate) fn ref_name_cmp(a: &[Vec<u8>], b: &[Vec<u8>]) -> Ordering {
+    let mut i = a.iter().rev();
+    let mut j = b.iter().rev();
+    loop {
+        match (i.next(), j.next()) {
+            (None, None) => return Ordering::Equal,
+            (None, Some(_)) => return Ordering::Less,
+            (Some(_), None) => return Ordering::Greater,
+            (Some(x), Some(y)) => match ref_label_cmp(x, y) {
+                Ordering::Equal => {}
+                o => return o,
+            },
+        }
+    }
+}
+
+/// Second, differently shaped formulation of §6.1 used to cross-check the
+/// first one inside every names case: a sort key in which every octet is
+/// shifted up by one and 0 terminates a label ("absence of an octet sorts
+/// before a zero octet").
+pub(crate) fn ref_name_key(a: &[Vec<u8>]) -> Vec<u16> {
+    let mut k = vec![];
+    for l in a.iter().rev() {
+        for &c in l {
+            let c = if c.is_ascii_uppercase() { c + 32 } else { c };
+            k.push(c as u16 + 1);
+        }
+        k.push(0);
+    }
+    k
+}
+
+pub(crate) fn rev(o: Ordering) -> Ordering {
+    o.reverse()
+}
+
+/// a <= b and b <= c must give a <= c (and the strict versions).
+pub(crate) fn transitive(ab: Ordering, bc: Ordering, ac: Ordering) -> bool {
+    use Ordering::*;
+    match (ab, bc) {
+        (Equal, x) => ac == x,
+        (x, Equal) => ac == x,
+        (Less, Less) => ac == Less,
+        (Greater, Greater) => ac == Greater,
+        _ => true,
+    }
+}
+
+pub(crate) fn hex(b: &[u8]) -> String {
+    let mut s = String::new();
+    for (i, x) in b.iter().enumerate() {
+        if i >= 96 {
+            s.push('…');
+            break;
+        }
+        s.push_str(&format!("{x:02x}"));
+    }
+    s
+}
+
+//------------ health / prop -----------------------------------------------------
+
+fn health(c: &BTreeMap<String, u64>, thorough: bool) -> Result<(), String> {
+    let g = |k: &str| c.get(k).copied().unwrap_or(0);
+    if c.keys().any(|k| k.starts_with("FAIL:")) {
+        let l: Vec<String> = c.iter().filter(|(k, _)| k.starts_with("FAIL:")).map(|(k, v)| format!("{k}={v}")).collect();
+        return Err(format!("diagnostic collect mode, failing laws: {}", l.join(" ")));
+    }
+    let floor = if thorough { 20_000 } else { 1_000 };
+    for t in rdata::type_labels() {
+        let k = format!("type:{t}");
+        if g(&k) < floor {
+            return Err(format!("class {k} starved ({} < {floor})", g(&k)));
+        }
+        let k = format!("ref-order-checked:{t}");
+        if g(&k) < floor / 2 {
+            return Err(format!("class {k} starved ({} < {})", g(&k), floor / 2));
+        }
+    }
+    for k in [
+        "rel:identical", "rel:name-case", "rel:octet-tweak", "rel:two-tweak", "rel:field-resize", "rel:name-splice", "rel:tail", "rel:fresh", "rel:ascii-case", "rel:cross-type",
+        "pair:equal-not-identical", "pair:differs-in-embedded-name", "pair:canonical-differs-eq-equal", "rdata-compressed-name",
+        "owner-pointer", "record:ttl-differs-equal", "record:same-rrset", "record:class-differs", "record:owner-differs",
+        "zone-enum", "typed-struct", "unknown:type-differs-same-data",
+        "names:equal-diff-case", "names:boundary-variant", "names:prefix-or-parent", "names:parsed-with-pointer", "names:chain",
+        "names:len>=250", "names:tweak-near-letter", "names:relative", "names:uncertain",
+        "label:case-pair", "label:prefix", "label:near-letter", "charstr:case-pair", "charstr:prefix", "charstr:len255",
+    ] {
+        if g(k) < 50 {
+            return Err(format!("class {k} starved ({})", g(k)));
+        }
+    }
+    if g("base-rejected") * 50 > g("rdata-case").max(1) {
+        return Err(format!("generated base RDATA rejected by the library too often: {} of {}", g("base-rejected"), g("rdata-case")));
+    }
+    Ok(())
+}
 
 pub fn prop() -> Option<Prop> {
-    None
+    Some(Prop {
+        id: "C04",
+        rule: "case = a triple of related values (identical / equal up to ASCII case / same value in another representation / one octet changed near the ASCII letter ranges, 0x00, 0xFF / one a prefix or parent of the other / label-boundary variant / same fields different TTL / fresh value of the same type) built by construction from generated bytes; non-trivial = some pair of the triple is not octet-identical AND (compares Equal, or first differs inside a name or at an octet adjacent to the ASCII letter ranges, or differs in length only); distinct by the decoded triple (wire octets of all members)",
+        assumptions: &[
+            "reference order: RFC 4034 §6.1 on label vectors (two independent formulations cross-checked in every case) and §6.2/§6.3 + RFC 6840 §5.1 canonical RDATA computed from the generated uncompressed RDATA by refimpl::rdata (independent field table)",
+            "the §6.3 reference order is demanded only for record data of the same type (and for records of the same owner, class and type); across types/classes/owners only the total-order laws are demanded",
+            "types whose equality is deliberately coarser than field equality (Record ignores TTL, CharStr and CAA tags ignore ASCII case) are judged by the coherence laws only, never by field equality",
+            "typed values are obtained by parsing generated messages with the library (AllRecordData / ZoneRecordData / typed structs) and flattening them to owned octets; mutated RDATA the library rejects is dropped from the triple",
+        ],
+        subchecks: vec![
+            SubCheck::new("names", names::run, 120_000, 3_000_000, 900),
+            SubCheck::new("atoms", atoms::run, 100_000, 3_000_000, 400),
+            SubCheck::new("rdata", rdata::run, 300_000, 5_000_000, 1500),
+        ],
+        health: Some(health),
+        extra: None,
+    })
 }
